@@ -9,7 +9,7 @@ SEC = 1_000_000_000
 H = lambda s: (s if isinstance(s, bytes) else s.encode()).hex()
 
 NAMES = [b"web", b"api", b"admin", b"blog"]
-HOSTS = [b"a.example.com", b"b.example.com", b"*.example.com", b"example.com", b"x.io", b"localhost"]
+HOSTS = [b"a.example.com", b"b.example.com", b"*.example.com", b"example.com", b"x.io", b"localhost", b"A.Example.com"]
 PREFIXES = [b"/", b"/api", b"/api/v1", b"/apiary", b"api/", b"/app/", b"/docs"]
 GOOD_TARGETS = [b"ta:80", b"tb:80", b"tc:8080", b"td", b"te.internal:3000", b"tf_1:80"]
 DEAD_TARGETS = [b"tx:80", b"ty:9000", b"tz"]   # never answer their probes
